@@ -178,7 +178,9 @@ Inductive pat :=
 | Pslide (l : list pat) (len step : pat) (start : Z) (wrap : bool) (r : reps)
 | PseedRand (seed : pat) (l : list pat) (r : reps)          (* Pseed(seed, Prand(l, r)) *)
 | PseedXrand (seed : pat) (l : list pat) (r : reps)         (* Pseed(seed, Pxrand(l, r)) *)
-| PseedWhite (seed lo hi : pat) (len : reps).               (* Pseed(seed, Pwhite(lo, hi, len)), int bounds *)
+| PseedWhite (seed lo hi : pat) (len : reps)                (* Pseed(seed, Pwhite(lo, hi, len)), int bounds *)
+| PseedWrand (seed : pat) (l : list pat) (nw : nat) (r : reps).  (* Pseed(seed, Pwrand(l, weights, r)); nw = number of
+                                                                  candidates = len(weights) (len(l) without weights) *)
 
 Definition in_reps (r : reps) (j : nat) : bool :=
   match r with Inf => true | Fin n => (Z.of_nat j <? n)%Z end.
@@ -293,7 +295,7 @@ Fixpoint init (m : mode) (p : pat) {struct p} : sstate :=
   | Pswitch1 l w => SSw1A (init Str w) (map (init Str) l)
   | Ptuple l r => STupR 0 r l
   | Pslide l len step start w r => SSlA (cnt_of r) (I start) (init Str len) (init Str step) l w
-  | PseedRand sd _ _ | PseedXrand sd _ _ | PseedWhite sd _ _ _ => SSeedA (init Str sd) p
+  | PseedRand sd _ _ | PseedXrand sd _ _ | PseedWhite sd _ _ _ | PseedWrand sd _ _ _ => SSeedA (init Str sd) p
   end.
 
 Inductive out (S : Type) := Stop | Err | Tau (s : S) | Yield (v : val) (s : S).
@@ -311,11 +313,17 @@ Section Oracle.
    is a function of the seed and of all earlier calls, nothing else *)
 Variable rnd : Z -> hist -> Z -> Z -> Z.
 
-(* lst[bi.rand(size)] *)
-Definition rand_item (l : list pat) (z : Z) (idx : hist) : option pat :=
-  let size := Z.of_nat (length l) in
-  let i := rnd z idx 0%Z size in
-  if ((0 <=? i) && (i <? size))%Z then nth_error l (Z.to_nat i) else None.
+(* lst[draw]: Prand draws bi.rand(size) = randrange(0, size), key (0, size); Pwrand draws
+   bi.choices(range(nw), weights)[0], key (-1, nw) -- the weights are part of the oracle *)
+Definition rand_item (a b : Z) (l : list pat) (z : Z) (idx : hist) : option pat :=
+  let i := rnd z idx a b in
+  if ((0 <=? i) && (i <? b))%Z then nth_error l (Z.to_nat i) else None.
+Definition rand_body (p : pat) : option (list pat * Z * Z) :=
+  match p with
+  | PseedRand _ l _ => Some (l, 0%Z, Z.of_nat (length l))
+  | PseedWrand _ l nw _ => Some (l, (-1)%Z, Z.of_nat nw)
+  | _ => None
+  end.
 (* Pxrand: index = (index + bi.rand(size - 1) + 1) % size; bi.rand(0) makes no call *)
 Definition xrand_step (l : list pat) (z : Z) (idx : hist) (index : Z) : option (pat * Z * hist) :=
   let size := Z.of_nat (length l) in
@@ -546,17 +554,18 @@ Fixpoint snext (s : sstate) : out sstate :=
                  | [] => Err
                  | _ => Tau (SSdX z [(0, Z.of_nat (length l))%Z] (rnd z [] 0%Z (Z.of_nat (length l))) (cnt_of r) SDone x p) end
              | PseedWhite _ lo hi len => Tau (SSdWA z [] (cnt_of len) (init Str lo) (init Str hi) x p)
+             | PseedWrand _ l _ r => match l with [] => Err | _ => Tau (SSdR z [] (cnt_of r) SDone x p) end
              | _ => Err
              end
            end)
   | SSdR z idx k cur cs p =>
       bindp (snext cur) (fun x => SSdR z idx k x cs p)
         (if cnt_zero k then Tau (SSeedA cs p) else
-         match p with
-         | PseedRand _ l _ => match rand_item l z idx with
-                              | Some q => Tau (SSdR z ((0, Z.of_nat (length l))%Z :: idx) (cnt_dec k) (init Emb q) cs p)
-                              | None => Err end
-         | _ => Err end)
+         match rand_body p with
+         | Some (l, a, b) => match rand_item a b l z idx with
+                             | Some q => Tau (SSdR z ((a, b) :: idx) (cnt_dec k) (init Emb q) cs p)
+                             | None => Err end
+         | None => Err end)
         (fun v x => Yield v (SSdR z idx k x cs p))
   | SSdX z idx index k cur cs p =>
       bindp (snext cur) (fun x => SSdX z idx index k x cs p)
@@ -896,12 +905,12 @@ Fixpoint tslide (d : pat -> trace) (l : list pat) (w : bool) (i : option nat) (p
       end
   end.
 (* seeded random bodies; K = what follows the body (the next seed) *)
-Fixpoint trand (d : pat -> trace) (l : list pat) (z : Z) (k : option nat) (idx : hist) (count : nat) (K : trace) : trace :=
+Fixpoint trand (d : pat -> trace) (a b : Z) (l : list pat) (z : Z) (k : option nat) (idx : hist) (count : nat) (K : trace) : trace :=
   match count with
   | O => ([], EMore)
   | S c => if cnt_zero k then K else
-           match rand_item l z idx with
-           | Some q => tapp (d q) (trand d l z (cnt_dec k) ((0, Z.of_nat (length l))%Z :: idx) c K) | None => ([], EErr) end
+           match rand_item a b l z idx with
+           | Some q => tapp (d q) (trand d a b l z (cnt_dec k) ((a, b) :: idx) c K) | None => ([], EErr) end
   end.
 Fixpoint txrand (d : pat -> trace) (l : list pat) (z : Z) (index : Z) (k : option nat) (idx : hist) (count : nat)
          (K : trace) : trace :=
@@ -971,7 +980,7 @@ Fixpoint den (k : nat) (m : mode) (p : pat) {struct k} : trace :=
                tslide (d Emb) l w (cnt_of r) (I start) (fst tl) (snd tl) (fst ts) (snd ts) end
     | PseedRand sd l r =>
         let t := d Str sd in
-        tseed (fun z K => match l with [] => ([], EErr) | _ => trand (d Emb) l z (cnt_of r) [] k' K end) (fst t) (snd t)
+        tseed (fun z K => match l with [] => ([], EErr) | _ => trand (d Emb) 0 (Z.of_nat (length l)) l z (cnt_of r) [] k' K end) (fst t) (snd t)
     | PseedXrand sd l r =>
         let t := d Str sd in
         tseed (fun z K => match l with
@@ -981,6 +990,10 @@ Fixpoint den (k : nat) (m : mode) (p : pat) {struct k} : trace :=
     | PseedWhite sd lo hi len =>
         let t := d Str sd in let tl := d Str lo in let th := d Str hi in
         tseed (fun z K => twhite z (cnt_of len) [] (fst tl) (snd tl) (fst th) (snd th) K) (fst t) (snd t)
+    | PseedWrand sd l nw r =>
+        let t := d Str sd in
+        tseed (fun z K => match l with [] => ([], EErr) | _ => trand (d Emb) (-1) (Z.of_nat nw) l z (cnt_of r) [] k' K end)
+              (fst t) (snd t)
     end
   end.
 End Oracle.
@@ -1063,6 +1076,6 @@ Fixpoint finp (p : pat) : bool :=
   | Pswitch l w | Pswitch1 l w => nvb w && finp w && forallb finp l
   | Ptuple l r => isfin r && forallb finp l && existsb nvb l
   | Pslide l len step _ _ r => forallb finp l && finp len && finp step && (isfin r || nvb len || nvb step)
-  | PseedRand sd l r | PseedXrand sd l r => nvb sd && finp sd && isfin r && forallb finp l
+  | PseedRand sd l r | PseedXrand sd l r | PseedWrand sd l _ r => nvb sd && finp sd && isfin r && forallb finp l
   | PseedWhite sd lo hi len => nvb sd && finp sd && finp lo && finp hi && (isfin len || nvb lo || nvb hi)
   end.
